@@ -278,4 +278,56 @@ theorem newBlindedProof_rel (ho : OpsRel R o o') (H : List ByteArray → Int) {p
   simp only [Iss.blindedTranscript]
   rw [ho.enc hu, ho.enc hut]
 
+
+/-! ## the signature-correctness proof (issuer's `newSignatureCorrectness`, holder's
+`checkSignatureCorrectness`) -/
+
+/-- the holder's verdict on a signature with its correctness proof is the same in both groups -/
+theorem checkSignatureCorrectness_rel (ho : OpsRel R o o') (H : List ByteArray → Int)
+    (isPrime : Int → Bool) {pk : PubKey G} {pk' : PubKey G'} (hpk : PKRel R pk pk')
+    {sig : Signature G} {sig' : Signature G'} (hs : SigRel R sig sig') (vals : Iss.KValues)
+    (se c : Int) (nonce : ByteArray) :
+    Iss.checkSignatureCorrectness o H isPrime pk sig vals se c nonce =
+      Iss.checkSignatureCorrectness o' H isPrime pk' sig' vals se c nonce := by
+  unfold Iss.checkSignatureCorrectness
+  rw [hs.e, hs.v, hs.m2, keys_rel hpk.r]
+  have hnone : (vals.any fun (x : String × Iss.Kind × Int) =>
+        (x.2.1 == .known || x.2.1 == .hidden) && (lookup x.1 pk.r).isNone) =
+      (vals.any fun (x : String × Iss.Kind × Int) =>
+        (x.2.1 == .known || x.2.1 == .hidden) && (lookup x.1 pk'.r).isNone) := by
+    congr 1; funext x; rw [lookup_isNone_rel hpk.r]
+  split
+  · rfl
+  · split
+    · rfl
+    · simp only at hnone ⊢
+      rw [hnone]
+      split
+      · rfl
+      · split
+        · rfl
+        · apply ORel.eq_of_eq
+          refine ORel.bind (ho.pow _ hpk.s) fun sv sv' hsv => ?_
+          refine ORel.bind (ho.pow _ hpk.rctxt) fun rc rc' hrc => ?_
+          refine ORel.bind (mulPows_rel ho hpk.r _ _ (ho.mul hsv hrc)) fun rx rx' hrx => ?_
+          refine ORel.bind (ho.inv hrx) fun rxi rxi' hrxi => ?_
+          have hq := ho.mul hpk.z hrxi
+          refine ORel.bind (ho.pow _ hs.a) fun ae ae' hae => ?_
+          rw [ho.beq hq hae]
+          split
+          · trivial
+          · refine ORel.bind (ho.pow _ hs.a) fun ac ac' hac => ?_
+            rw [ho.enc hq, ho.enc hs.a, ho.enc hac]
+            exact ORel.refl _
+
+/-- the issuer's signature-correctness proof is the same pair `(se, c)` in both groups -/
+theorem newSignatureCorrectness_rel (ho : OpsRel R o o') (H : List ByteArray → Int)
+    {a q : G} {a' q' : G'} (ha : R a a') (hq : R q q') (einv r N : Int) (nonce : ByteArray) :
+    Iss.newSignatureCorrectness o H a q einv r N nonce =
+      Iss.newSignatureCorrectness o' H a' q' einv r N nonce := by
+  unfold Iss.newSignatureCorrectness
+  apply ORel.eq_of_eq
+  refine ORel.map (ho.pow r hq) fun ac ac' hac => ?_
+  rw [ho.enc hq, ho.enc ha, ho.enc hac]
+
 end CL.Pri
